@@ -37,6 +37,9 @@ type actorRun struct {
 	closeReq    bool
 	closeDone   bool
 	t7Armed     bool
+	selCount    int   // successful NotSelected->Selected commits so far
+	t7ArmSel    int   // selCount when the currently armed T7 was armed (entry into NotSelected)
+	t7Queue     []int // per injected, not yet processed evT7Timeout: the selCount its T7 was armed under
 	notes       [][2]hsms.ConnState
 	dropSeen    uint64
 	nSeq        int
@@ -76,6 +79,9 @@ func (a *actorRun) commitStep(name string, from, to hsms.ConnState, do func() bo
 	ok := do()
 	after := a.v.State()
 	a.log = append(a.log, fmt.Sprintf("%s=%v(%v->%v)", name, ok, before, after))
+	if ok && to == hsms.SelectedState {
+		a.selCount++
+	}
 	if ok {
 		if before != from || after != to {
 			a.fail("CAUSE", "%s reported a commit but the register went %v -> %v (want %v -> %v)", name, before, after, from, to)
@@ -96,6 +102,7 @@ func (a *actorRun) runSequence() {
 	v := a.v
 	a.log = a.log[:0]
 	a.genLive, a.discPending, a.closeReq, a.closeDone, a.t7Armed = false, 0, false, false, false
+	a.selCount, a.t7ArmSel, a.t7Queue = 0, 0, a.t7Queue[:0]
 	a.notes = a.notes[:0]
 	a.dropSeen = 0
 	steps := 1 + t.Choose("scn", 40)
@@ -106,7 +113,7 @@ func (a *actorRun) runSequence() {
 			if a.genLive || a.closeReq || !v.Room(1) || v.State() != nc || a.discPending > 0 {
 				continue
 			}
-			a.genLive, a.t7Armed = true, true
+			a.genLive, a.t7Armed, a.t7ArmSel = true, true, a.selCount
 			a.commitStep("CommitConnected", nc, ns, v.CommitConnected)
 		case 1:
 			if !a.genLive || !v.Room(1) {
@@ -120,7 +127,7 @@ func (a *actorRun) runSequence() {
 			before := v.State()
 			a.commitStep("CommitSelectLost", sl, ns, v.CommitSelectLost)
 			if before == sl {
-				a.t7Armed = true
+				a.t7Armed, a.t7ArmSel = true, a.selCount
 			}
 		case 3: // involuntary drop from the receive path (or a write failure)
 			if !a.genLive || !v.Room(1) {
@@ -134,6 +141,7 @@ func (a *actorRun) runSequence() {
 				continue
 			}
 			a.t7Armed = false
+			a.t7Queue = append(a.t7Queue, a.t7ArmSel)
 			v.InjectT7()
 			a.discPending++
 			a.log = append(a.log, "inject(evT7Timeout)")
@@ -191,9 +199,17 @@ func (a *actorRun) stepOne(tie bool) {
 		v.SetAfterLoadHook(func(ev int) {
 			tieBefore = v.State()
 			if which == 0 {
-				tieDesc = fmt.Sprintf("tie:CommitSelected=%v", v.CommitSelected())
+				ok := v.CommitSelected()
+				if ok {
+					a.selCount++
+				}
+				tieDesc = fmt.Sprintf("tie:CommitSelected=%v", ok)
 			} else {
-				tieDesc = fmt.Sprintf("tie:CommitSelectLost=%v", v.CommitSelectLost())
+				ok := v.CommitSelectLost()
+				if ok {
+					a.t7Armed, a.t7ArmSel = true, a.selCount // (the transport arms a fresh T7 on every entry into NotSelected)
+				}
+				tieDesc = fmt.Sprintf("tie:CommitSelectLost=%v", ok)
 			}
 			tieAfter = v.State()
 			tieDone = true
@@ -211,6 +227,11 @@ func (a *actorRun) stepOne(tie bool) {
 	a.log = append(a.log, fmt.Sprintf("step(%s)%s:%v->%v", evName(ev), tieDesc, before, after))
 	if ev == hsms.VerifEvDisconnect || ev == hsms.VerifEvT7Timeout {
 		a.discPending--
+	}
+	armedUnder := -1
+	if ev == hsms.VerifEvT7Timeout && len(a.t7Queue) > 0 {
+		armedUnder = a.t7Queue[0]
+		a.t7Queue = a.t7Queue[1:]
 	}
 	// the part of the change that belongs to step itself (excluding the tie actor's own commit)
 	stepFrom, stepTo := before, after
@@ -244,6 +265,17 @@ func (a *actorRun) stepOne(tie bool) {
 		case hsms.VerifEvT7Timeout:
 			if stepFrom == sl {
 				a.fail("T7_KILLED_SELECTED", "step(evT7Timeout) moved a Selected session to %v", stepTo)
+
+				return
+			}
+			current := false // the T7 of the CURRENT dwell has expired too (its event is queued behind this one)
+			for _, u := range a.t7Queue {
+				if u == a.selCount {
+					current = true
+				}
+			}
+			if armedUnder >= 0 && a.selCount > armedUnder && !current {
+				a.fail("T7_STALE_DISCONNECT", "step(evT7Timeout) disconnected the session (%v -> %v), but the T7 that expired had been armed %d selection(s) ago: the session reached Selected after it was armed (and was deselected again while the expiry sat in the queue)", stepFrom, stepTo, a.selCount-armedUnder)
 
 				return
 			}
